@@ -787,6 +787,9 @@ static int handleConfigResponse(KSI_HighAvailabilityService *has, KSI_AsyncServi
 			KSI_Utf8String_free(reqHndl->errMsg);
 			reqHndl->errMsg = NULL;
 		}
+		/* A configuration request has been answered by this subservice: errors of the other subservices, earlier
+		 * or later, are notices only and do not fail the request. */
+		if (haRequest->hasReq == false) reqHndl->state = KSI_ASYNC_STATE_PUSH_CONFIG_RECEIVED;
 	}
 
 	res = KSI_AsyncHandle_getConfig(respHndl, &pushConf);
